@@ -255,6 +255,41 @@ def check(P: Project, R: Report) -> None:
     inv_in_try = [c for c in invokes if any(c in list(walk_local(s)) for t in trys for s in t.body)]
     R.ob("R2", "the handler invocation is inside a try covering Exception", len(inv_in_try) >= 1 and all(any(h.type is None or ast.unparse(h.type) in ("Exception", "BaseException") for h in t.handlers) for t in trys), hm.where, f"{len(inv_in_try)} of {len(invokes)} invocations inside a try")
     R.ob("R2", "dispatcher cannot fall off the end", not out.normal, hm.where, "")
+    # the envelope builders the dispatcher (and the library handlers) answer through add no failure of their own: what can
+    # raise in them is the envelope class's validation, which the model above accounts for (a nullable id); anything else
+    # they call — a helper that trims, translates or decorates the message — must not be able to raise, because the
+    # dispatcher calls them from its `except` arm, where nothing is left to catch it
+    builders = {}
+
+    def _collect_builders(host: FuncInfo, call: ast.Call, depth: int = 0):
+        g_ = P.resolve_call(host, call)
+        if isinstance(g_, FuncInfo) and envelope_call(P, host, call) is not None and g_.fq not in builders and depth < 4:
+            builders[g_.fq] = g_
+            for c_ in walk_local(g_.node):
+                if isinstance(c_, ast.Call):
+                    _collect_builders(g_, c_, depth + 1)
+
+    for c_ in walk_local(hm.node):
+        if isinstance(c_, ast.Call):
+            _collect_builders(hm, c_)
+    R.need(builders, "anchor: the dispatcher builds no envelope through a builder function")
+    for fq_, g_ in sorted(builders.items()):
+        R.fn(g_.fq)
+        bad_ = []
+        for c_ in (x for st_ in g_.node.body for x in calls_in_order(st_)):
+            tgt_ = P.resolve_call(g_, c_)
+            if envelope_call(P, g_, c_) is not None or isinstance(tgt_, ClassInfo) and tgt_.module.name == A.MOD_JSONRPC:
+                continue
+            if isinstance(c_.func, ast.Name) and c_.func.id == "cls":
+                continue  # the class the factory was called on
+            if is_benign_call(c_, ()):
+                continue
+            if isinstance(tgt_, FuncInfo) and contained(P, tgt_):
+                continue
+            bad_.append(c_)
+        R.ob("R2", f"{g_.qual}: building the envelope cannot fail except in the envelope's own validation", not bad_, f"{g_.module.rel}:{(bad_[0].lineno if bad_ else g_.node.lineno)}",
+             (f"`{ast.unparse(bad_[0])[:60]}` may raise: the dispatcher builds its -32601/-32603 answers through this function, the latter from inside its `except` arm, so the exception leaves handle_message and the request gets no response" if bad_ else ""),
+             sample=f"R2 builder {g_.qual}: only the envelope constructor can raise")
 
     # ------------------------------------------------------------------ R3
     R.need(out.ret, "handle_message has no return")
